@@ -8,23 +8,25 @@ META = dict(
     text="ValidationCache models a node over a fixed transaction universe: mempool acceptance and test-accept (PolicyScriptChecks under the STANDARD flags, "
          "ConsensusScriptChecks under the tip's flags, which store), block connection (consults the caches, stores nothing; an 'erased' cuckoo-cache entry stays visible), TestBlockValidity "
          "(the only block path that stores), and tip invalidation with mempool resurrection; the script-execution cache keyed by (wtxid, flags) and the "
-         "signature cache keyed by (signature, public key, digest) exactly as CheckInputScripts / CachingTransactionSignatureChecker use them. Block flags "
+         "signature cache keyed by (signature bytes, public key bytes as pushed, digest) exactly as CheckInputScripts / CachingTransactionSignatureChecker use them. Block flags "
          "depend on the height (regtest -testactivationheight), so the same spend is valid before and invalid after an activation; witness twins share a "
-         "txid; signatures are reused under another digest or public key. Every action computes its verdict through the caches and cache-free; TLC proves "
-         "they agree in every reachable state, and finds the disagreement for five deliberately broken cache keys (negative controls). Every transition is "
+         "txid; signatures are reused under another digest, hash type or public key; where the spender supplies the key (P2WSH / P2SH OP_CHECKSIG, bare multisig) the same key appears in every encoding (compressed, uncompressed, hybrid, hybrid with the wrong parity header, off-curve Y) and the signature with low and high S, as witness twins (one txid) and scriptSig twins (one digest). Every action computes its verdict through the caches and cache-free; TLC proves "
+         "they agree in every reachable state, and finds the disagreement for six deliberately broken cache keys (negative controls). Every transition is "
          "replayed on a real node with normal cache sizes (real signed transactions, real blocks): verdict, tip and mempool content must equal the cache-free "
          "prediction; the real caches are also probed and compared with the model's (reported, not judged).",
-    note="EXACT on verdict classes (ok / script / noinputs / dup / bip30), tip height and mempool content. Bounded: every behaviour of 4-5 calls (quick) / 5-6 calls (thorough) per scenario family "
-         "(flag change, witness twins, signature reuse; plus two activations and a mixed family in thorough); random walks over the whole 15-transaction universe in thorough. The spent outputs "
+    note="EXACT on verdict classes (ok / script / noinputs / dup / conflict / bip30), tip height and mempool content. Bounded: every behaviour of 4-5 calls (quick) / 5-6 calls (thorough) per scenario family "
+         "(flag change, witness twins, signature reuse; plus two activations and a mixed family in thorough); random walks over the whole 27-transaction universe in thorough. The spent outputs "
          "of a given outpoint cannot change (a txid commits to its outputs), so 'different inputs' is exercised as inputs that are missing after a reorg.",
     technique="TLA+ spec ValidationCache + TLC exhaustive (cached verdict = cache-free verdict; broken-key negative controls); path cover replayed on a real node",
 )
 
-SCENARIOS_QUICK = ["flags", "wit", "sig"]
-SCENARIOS_THOROUGH = ["flags_t", "wit_t", "sig_t", "flags2", "mix"]
+SCENARIOS_QUICK = ["flags", "wit", "sig", "encw", "encs"]
+SCENARIOS_THOROUGH = ["flags_t", "wit_t", "sig_t", "encw", "encs", "encw_t", "encs_t", "flags2", "mix"]
 NEGATIVE = [("NEG_noflags", "execution cache keyed without the flags"), ("NEG_blockstd", "block path stores under the STANDARD flags"),
             ("NEG_txid", "execution cache keyed by txid"), ("NEG_sig_nodigest", "signature cache ignores the digest"),
-            ("NEG_sig_nopk", "signature cache ignores the public key")]
+            ("NEG_sig_nopk", "signature cache ignores the public key"),
+            ("NEG_sig_noenc", "signature cache normalises the public key encoding (P2WSH spender-supplied key)"),
+            ("NEG_sig_noenc_p2sh", "signature cache normalises the public key encoding (P2SH / bare multisig)")]
 ACTIONS = ("submit", "test", "mine", "testblock", "invalidate")
 
 
@@ -109,18 +111,18 @@ def run(ctx):
         # random walks over the whole universe (two activation heights)
         kept["all"] = scenario(ctx, binary, "all", per_action, per_verdict, simulate=(60, 12))
         # cross-checks: the same behaviours on a node with minimal caches, and on a node with script-check worker threads
-        for name in ("flags_t", "sig_t", "all"):
+        for name in ("flags_t", "sig_t", "encw", "encs", "all"):
             paths, upath = kept[name]
             replay(ctx, binary, name, paths, upath, variant=("nocache",))
             replay(ctx, binary, name, paths, upath, variant=("threads",))
     missing = [a for a in ACTIONS if not per_action[a]]
-    need = ["submit:ok", "submit:script", "submit:dup", "submit:noinputs", "test:ok", "mine:ok", "mine:script", "mine:noinputs", "mine:bip30", "testblock:ok", "testblock:script"]
+    need = ["submit:ok", "submit:script", "submit:dup", "submit:noinputs", "submit:conflict", "test:ok", "mine:ok", "mine:script", "mine:noinputs", "mine:bip30", "testblock:ok", "testblock:script"]
     missing += [v for v in need if not per_verdict[v]]
     if missing:
         raise vflib.InfraError("vacuity: never occurs in the bounded model: %s" % missing)
     ctx.extra["transitions_per_action"] = dict(per_action)
     ctx.extra["transitions_per_predicted_verdict"] = dict(per_verdict)
-    ctx.assumptions += ["bounded behaviours over a 15-transaction universe funded by one base-chain transaction; base tip at height 104, CLTV activates at 106 (CSV at 107 in the two-flag scenarios)",
+    ctx.assumptions += ["bounded behaviours over a 27-transaction universe funded by one base-chain transaction; base tip at height 104, CLTV activates at 106 (CSV at 107 in the two-flag scenarios)",
                         "script classes stand for concrete scripts (OP_TRUE, CLTV/CSV-violating spends, OP_NOP4, P2WSH, P2WPKH, 2-of-2 multisig, P2PK); the harness builds them, the model only knows their verdict per flag set",
                         "no worker threads in the main runs (TestBlockValidity then inserts into the execution cache); cache eviction by capacity is not exercised"]
     return ctx.finish(level="model_checking", exhaustive=True,
